@@ -176,7 +176,7 @@ def describe(c):
 
 def run(pid, tier, seed, replay):
     ck = Check(pid, tier, seed, level="proof")
-    n, coq_cap = (3000, 3200) if tier == "quick" else (40000, 16000)
+    n, coq_cap = (3000, 1000) if tier == "quick" else (40000, 8000)
     ck.proof_step()
     ok, out, dt = vlib.cargo_build("h_physplan", bin="c05")
     ck.log("cargo build h_physplan --bin c05: ok=%s (%.0fs)" % (ok, dt))
